@@ -382,6 +382,32 @@ func (e *Env) c19Combinator(name string, run *ssa.Function) {
 		found = true
 		obC.Check(strings.Contains(as, core.FuncName(comb)+"(") && strings.Contains(as, "builtin.len("), gc.Where(n), "factor = "+trunc(as, 100), "the head is repeated "+trunc(as, 120)+" times, which is the length of a raw input stream, not of the combined tail: with three or more ports the out-ports get different lengths (misaligned product)")
 	}
+	// the other form of repetition: make([]T, factor), every element set to the head element
+	for _, n := range gc.Nodes {
+		st, ok := n.Instr.(*ssa.Store)
+		if !ok {
+			continue
+		}
+		ia, ok := st.Addr.(*ssa.IndexAddr)
+		if !ok {
+			continue
+		}
+		ms, ok := ia.X.(*ssa.MakeSlice)
+		if !ok {
+			continue
+		}
+		v := csy.InCtx(n.Ctx, st.Val)
+		vs := v.String()
+		if !((v.Op == "rangeval" || v.Op == "elem") && headIndexRe.MatchString(vs) && !strings.Contains(vs, core.FuncName(comb)+"(")) {
+			continue
+		}
+		if _, inLoop := e.loopOver(gc, n, ""); !inLoop {
+			continue
+		}
+		found = true
+		as := csy.InCtx(n.Ctx, ms.Len).String()
+		obC.Check(strings.Contains(as, core.FuncName(comb)+"(") && strings.Contains(as, "builtin.len("), gc.Where(n), "factor = "+trunc(as, 100)+" (length of the slice filled with the head element)", "the head is repeated "+trunc(as, 120)+" times, which is the length of a raw input stream, not of the combined tail: with three or more ports the out-ports get different lengths (misaligned product)")
+	}
 	if !found {
 		obC.Unknown(core.FuncName(comb), "head-repetition loop `for i := 0; i < len(tail[k]); i++ { append(head element) }` not recognised")
 	}
@@ -596,12 +622,15 @@ func (e *Env) c19Concatenator(run *ssa.Function) {
 		if !n.IsCallTo("(*os.File).Write", "(*os.File).WriteString") || n.Kind == core.KAfter {
 			continue
 		}
-		s := sy.InCtx(n.Ctx, n.Call.Args[1]).String()
-		switch {
-		case strings.Contains(s, "ReadFile("):
-			data++
-		case strings.Contains(s, "\"\\n\""):
-			nl++
+		// (one write call may serve several values in turn: a loop over a literal list of chunks)
+		for _, alt := range sy.InCtx(n.Ctx, n.Call.Args[1]).DeepAlts(6) {
+			s := alt.String()
+			switch {
+			case strings.Contains(s, "ReadFile("):
+				data++
+			case strings.Contains(s, "\"\\n\""):
+				nl++
+			}
 		}
 		if len(g.EnclLoops(n)) == 0 {
 			ob2.Fail(g.Where(n), "a write is outside the loop over the received IPs")
